@@ -13,6 +13,7 @@ import PyGqlModel.Props.C02_reparse
 import PyGqlModel.Lemmas.SpanSolid
 import PyGqlModel.Lemmas.SpanShiftDoc
 import PyGqlModel.Lemmas.SpanWfDoc
+import PyGqlModel.Lemmas.SpanVals
 namespace PyGql.Props.C02
 open PyGql PyGql.Ast PyGql.Parse PyGql.Spec PyGql.Props.C01
 open PyGql.Spec.Lexical (Tiles slice eofT)
@@ -86,6 +87,30 @@ theorem span_reparse_doc_type (fl : Flags) (s : Text) (d : Document) (h : parseT
   unfold parseTypeText
   rw [hlex]; simp only [hpc]; rfl
 
+/-- EXECUTABLE documents, no side hypothesis: every value node of every operation and fragment definition — default
+    values of variable definitions, arguments of fields and of directives at every level of the selection sets, and
+    every value nested in them (`OperationDefinition.vals` / `FragmentDefinition.vals`) — is what `parse_value` returns
+    for the characters inside its span, modulo the offset. -/
+theorem span_reparse_exec_value (fl : Flags) (s : Text) (d : Document) (h : parseText fl s = some d) :
+    (∀ o, Definition.operation o ∈ d.definitions → ∀ w ∈ o.vals, ∀ a b, w.loc = some (a, b) →
+      a ≤ b ∧ b ≤ s.length ∧ parseValueText fl (slice s a b) = some (w.mapLoc (locDown a))) ∧
+    (∀ f, Definition.fragment f ∈ d.definitions → ∀ w ∈ f.vals, ∀ a b, w.loc = some (a, b) →
+      a ≤ b ∧ b ≤ s.length ∧ parseValueText fl (slice s a b) = some (w.mapLoc (locDown a))) := by
+  obtain ⟨_, _, wf, _⟩ := (parse_text_result_partial fl s d).1 h
+  have wfx : ∀ x ∈ d.definitions, wfDefinition fl x = true := by
+    intro x hx
+    simp only [wfDocument, Bool.and_eq_true, List.all_eq_true] at wf
+    exact (wf.2 x hx).1
+  constructor
+  · intro o ho w hw a b hloc
+    obtain ⟨hs, hwf⟩ := operation_vals o w hw
+    exact span_reparse_doc_value fl s d h _ ho w (by simpa [definitionV] using hs)
+      (hwf (by simpa [wfDefinition] using wfx _ ho)) a b hloc
+  · intro f hf w hw a b hloc
+    obtain ⟨hs, hwf⟩ := fragment_vals fl f w hw
+    exact span_reparse_doc_value fl s d h _ hf w (by simpa [definitionV] using hs)
+      (hwf (by simpa [wfDefinition] using wfx _ hf)) a b hloc
+
 theorem definitionV_node (x : Definition) : ∃ is, definitionV x = .node x.loc is := by
   cases x with
   | operation o => simp only [definitionV, operationV, Definition.loc]; split <;> exact ⟨_, rfl⟩
@@ -144,6 +169,11 @@ example : ∃ x ∈ theDoc.definitions, Item.Sub (valueV wv) (definitionV x) ∧
 /-- and the conclusion, computed: `[1]` at offset 0 -/
 example : (parseValueText {} (slice doc 5 8)).map (fun v => v.subs.map Value.loc) = some [some (0, 3), some (1, 2)] := by
   decide
+
+/-- `span_reparse_exec_value` is not vacuous: the value nodes of the operation of `{a(x:[1])}` are `[1]` (5,8) and `1` (6,7) -/
+example : (match theDoc.definitions with
+    | [.operation o] => o.vals.map Value.loc
+    | _ => []) = [some (5, 8), some (6, 7)] := by decide
 
 /-- `{a} {b}`: the second definition spans (4,7); its text `{b}` parses to one definition spanning (0,3) in a document (0,3) -/
 private def two : Text := [123, 97, 125, 32, 123, 98, 125]
